@@ -173,6 +173,7 @@ mutual
 def litTree (s : St) : Lit → Option Tree
   | .int n => some (.sc (.int n))
   | .null => some (.sc .null)
+  | .str cs => some (.sc (.str cs))
   | .rd p => read s p
   | .arr items => (treeL s items).map .arr
 def treeL (s : St) : List (Key × Lit) → Option (List Entry)
@@ -189,6 +190,11 @@ def evalRV (s : St) : RV → Option Tree
   | .lit l => litTree s l
   | .rd p => read s p
   | .call p => read s p      -- a call that returns what a place holds yields that value
+  | .str cs => some (.sc (.str cs))
+  | .upd p u =>              -- `place op= c`: the new scalar computed from the one the place holds
+    match read s p with
+    | some (.sc sv) => (u.apply sv).map .sc
+    | _ => none
 
 def stepOpt (s : St) : Op → Option St
   | .setVar x r => (evalRV s r).map (s.setVar x)
